@@ -231,6 +231,7 @@ def run_invocation(script, backend: FakeBackend, plan, seed, schedule=None, limi
     backend.plan = plan
     backend.ticks = 0
     backend.sync_calls = 0
+    backend.api_calls = 0
     backend.asyncs_since_sync = 0
     backend.crashed = None
     backend.clock = lambda: sim.clock
@@ -247,6 +248,10 @@ def run_invocation(script, backend: FakeBackend, plan, seed, schedule=None, limi
             if r_.pos() is not None:
                 interp.idmap[r_.id] = ".".join(map(str, r_.pos()))
         pages = backend.initial_pages(plan.get("page_size"))
+        if plan.get("first_empty"):
+            # payload size limits: the invocation payload may carry no operations at all, only a marker
+            # (execution.py:72-80 documents this)
+            pages = [[]] + pages
         backend._pages = pages
         orig_cc = ExecutionState.create_checkpoint
         saved_limit = childmod.CHECKPOINT_SIZE_LIMIT
